@@ -50,7 +50,8 @@ Inductive obs :=
 | BAudit (l : list (N * bool)).         (* (revision, is a deletion) *)
 
 Inductive case :=
-| CHist (nz : bool) (idname : bytes) (fields : list (bytes * ftype)) (indexes : list index)
+| CHist (nz strict uf : bool)            (* probed facts about the code: see `flags` in Doc/Model.v *)
+        (idname : bytes) (fields : list (bytes * ftype)) (indexes : list index)
         (steps : list (op * obs)).
 
 Definition mem (id : bytes) (l : list bytes) : bool := existsb (bytes_eqb id) l.
@@ -127,5 +128,6 @@ Fixpoint steps_ok (st : state) (l : list (op * obs)) : bool :=
 
 Definition case_ok (c : case) : bool :=
   match c with
-  | CHist nz idname fields indexes steps => steps_ok (init (new_schema nz idname fields indexes)) steps
+  | CHist nz strict uf idname fields indexes steps =>
+      steps_ok (init (new_schema (mkfl nz strict uf) idname fields indexes)) steps
   end.
